@@ -134,7 +134,7 @@ func scenarioC13(c *hlib.RunCtx) *hlib.Violation {
 		GoVersion: []string{"go1.21.0", "go1.21.5", "go1.22.1", "go1.23.0", "go1.21rc2", "go1.22beta1"},
 		Programs: []*telemetry.ProgramConfig{
 			{Name: "example.com/gopls", Versions: []string{"v0.14.0", "v0.15.0", "v0.15.1", "v0.15.1+incompatible", "v0.15.1+build.7"}, // the last three are equal as semantic versions
-				Counters: []telemetry.CounterConfig{{Name: "editor:{vscode,vim,emacs}", Rate: 1}, {Name: "plain", Rate: 1}}},
+				Counters: []telemetry.CounterConfig{{Name: "editor:{vscode,vim,emacs}", Rate: 1}, {Name: "plain", Rate: 1}, {Name: "signal:{os:kill,os:term,none}", Rate: 1}}}, // buckets that contain a colon themselves
 			{Name: "cmd/go", Versions: []string{"go1.21.0", "go1.22.1"},
 				Counters: []telemetry.CounterConfig{{Name: "go/invocations", Rate: 1}, {Name: "flag:{-json,-v}", Rate: 1}}},
 		},
